@@ -74,6 +74,10 @@ func checkC16(w *World, r *Report) {
 	r.Rule("R16.5", "upstream attempts do not share mutable TLS configuration", 3)
 	r.Rule("R16.6", "a closed carrier is seen as closed: the wrappers' Close sets the flag on every path (the reuse test consults Closed())", 2)
 	ruleSafeCloseSetsFlag(w, r, "R16.6")
+	r.Rule("R16.13", "a failed stream open reaches the listener as a nil interface, not as a nil pointer inside one (the listener's nil guards decide whether the client survives the failure)", 2)
+	ruleNoTypedNilResult(w, r, "R16.13", pkgFuncs(w, "/internal/client/upstream", "/internal/client/listener"), ": HandleConnection's TryClose(up) then calls a method on the nil pointer — one failed stream open (a dead but unreaped session, a refused channel) crashes the client with every logical connection it carries, instead of the next connection re-establishing the session")
+	r.Rule("R16.12", "every Lock of the upstream mutex is released on every path out of Connect and Shutdown (the next local connection must be able to re-establish the session)", 2)
+	ruleLockPairing(w, r, "R16.12", pkgFuncs(w, "/internal/client/upstream"))
 	r.Rule("R16.11", "Connect never rewrites the upstream's configured address: the next attempt on the same upstream (after a failure, after session loss) dials what was configured", 5)
 	ruleSchemeImmutable(w, r, "R16.11")
 	r.Rule("R16.10", "whenever no usable session exists, Connect runs the round over the upstreams (no hold-off turns a connection away)", 1)
